@@ -62,7 +62,8 @@ REQUIRED = [
     "cons:bipartite:empty", "cons:dag:path", "cons:dag:tree", "cons:dag:pyramid",
     "opt:plantclique", "opt:plantbiclique", "opt:addedges", "opt:splitedges", "opt:save",
     "branch:glrm:dense", "branch:glrm:sparse", "branch:glrm:sparse-rejected-sample",
-    "branch:regular:retry", "branch:regular:retries-exhausted",
+    "branch:regular:retry", "branch:regular:retries-exhausted", "branch:regular:restart",
+    "dense_regular_requests", "dense_regular_restarts",
     "branch:addedges:sparse-rejected-sample", "branch:addedges:dense-fallback",
     "branch:gnp:multipartite", "glrm_requests_at_maximum", "gnm_requests_at_maximum",
 ]
@@ -113,15 +114,16 @@ class RngTap:
 
 class RegularTap:
     """has_edge / add_edge traffic of BipartiteGraph while bipartite_random_regular runs: a run of
-    3*d*d occupied answers in a row is an exhausted retry loop; a call of the module-level name from
-    inside is a restart."""
+    3*d*d occupied answers in a row is an exhausted retry loop; every graph the function creates after
+    its first one is a restart (whether it restarts by calling itself or by looping)."""
 
     def __enter__(self):
         import cnfgen.graphs as g
         self.g, self.cls = g, g.BipartiteGraph
         self.run = self.maxrun = self.restarts = 0
-        self.orig = (self.cls.has_edge, self.cls.add_edge, g.bipartite_random_regular)
-        orig_has, orig_add, orig_fn = self.orig
+        self.orig = (self.cls.has_edge, self.cls.add_edge, self.cls.__init__)
+        orig_has, orig_add, orig_init = self.orig
+        self.builds = 0
         tap = self
 
         def has_edge(obj, u, v):
@@ -140,15 +142,18 @@ class RegularTap:
             tap.run = 0
             return orig_add(obj, u, v)
 
-        def restarted(*a, **kw):
-            tap.restarts += 1
-            tap.run = 0
-            return orig_fn(*a, **kw)
-        self.cls.has_edge, self.cls.add_edge, g.bipartite_random_regular = has_edge, add_edge, restarted
+        def init(obj, *a, **kw):
+            if sys._getframe(1).f_code.co_name == "bipartite_random_regular":
+                tap.builds += 1
+                if tap.builds > 1:
+                    tap.restarts += 1
+                    tap.run = 0
+            return orig_init(obj, *a, **kw)
+        self.cls.has_edge, self.cls.add_edge, self.cls.__init__ = has_edge, add_edge, init
         return self
 
     def __exit__(self, *exc):
-        self.cls.has_edge, self.cls.add_edge, self.g.bipartite_random_regular = self.orig
+        self.cls.has_edge, self.cls.add_edge, self.cls.__init__ = self.orig
 
 
 # ===================================================================== observation of a result
@@ -829,6 +834,43 @@ def case_family(ctx, gtype, cons, arglists, nseeds):
     flush_counts(ctx)
 
 
+DENSE_REGULAR = [[str(x) for x in t] for t in ((12, 12, 11), (16, 16, 15), (14, 14, 13), (18, 12, 11), (20, 20, 19),
+                                               (15, 10, 9), (18, 18, 17))]
+
+
+def case_dense_regular(ctx, args, seeds, headroom):
+    """Nearly complete regular graphs: the construction gets stuck most of the times and starts again, hundreds of
+    times for the densest requests.  The caller is `headroom` frames away from the interpreter's recursion limit, as a
+    caller deep inside a framework or a recursive procedure is."""
+    exp = EXPECT["bipartite"]["regular"](args)
+    tokens = ["regular"] + list(args)
+    d = ints(args)[2]
+    for seed in seeds:
+        rnd = ("fair", 0, seed)
+        old = sys.getrecursionlimit()
+        depth = 0
+        f = sys._getframe()
+        while f is not None:
+            depth += 1
+            f = f.f_back
+        sys.setrecursionlimit(depth + headroom)
+        try:
+            st, val, obs = build(ctx, "bipartite", tokens, rnd, d)
+        finally:
+            sys.setrecursionlimit(old)
+        ctx.count("cons:bipartite:regular")
+        ctx.count("dense_regular_requests")
+        ctx.count("dense_regular_restarts", obs.get("restarts", 0))
+        if obs.get("restarts", 0) > headroom:
+            ctx.count("dense_regular_more_restarts_than_stack_frames_left")
+        judge(ctx, label_of("bipartite", tokens, rnd) + " [caller %d frames below the recursion limit]" % headroom,
+              "regular", exp, st, val, obs, "bipartite")
+        ctx.judged(("lib-dense", tuple(tokens), seed, headroom), nontrivial=True,
+                   sample={"spec": " ".join(tokens), "seed": seed, "restarts": obs.get("restarts"),
+                           "frames left": headroom, "outcome": "graph" if st == "ok" else repr(val)[:120]})
+    flush_counts(ctx)
+
+
 # ----------------------------------------------------------------- options, stage by stage
 def spec_tokens(base, opts, order, tmp=None):
     """Tokens of base + the options `opts` (list of [name, args]) written in the order `order`."""
@@ -1481,7 +1523,8 @@ def family_arglists(tier):
     dm = 6 if T else 5
     out["bipartite", "regular"] = [S(L, R, d) for L in range(1, dm + 1) for R in range(1, dm + 1) for d in range(-1, R + 2)] + \
         [S(0, 3, 0), S(3, 0, 0), S(3, 0, 1), S(-1, 3, 1), S(3, 3), S(3, 3, 1, 1), ["3", "3", "1.0"], [],
-         S(6, 3, 2), S(8, 4, 2), S(6, 6, 5), S(7, 7, 3), S(4, 8, 4), S(9, 6, 4)]
+         S(6, 3, 2), S(8, 4, 2), S(6, 6, 5), S(7, 7, 3), S(4, 8, 4), S(9, 6, 4)] + \
+        [S(24, 24, 1), S(9, 9, 9), S(9, 9, 10), S(2, 40, 20), S(12, 12, 10)]
     out["bipartite", "glrd"] = [S(L, R, d) for L in range(1, dm + 1) for R in range(1, dm + 1) for d in range(-1, R + 2)] + \
         [S(0, 3, 0), S(3, 0, 0), S(3, 0, 1), S(-1, 3, 1), S(3, 3), S(3, 3, 1, 1), ["3", "3", "nan"], [], S(7, 9, 4)]
     out["bipartite", "glrp"] = [[str(L), str(R), p] for L in (1, 2, 4) for R in (1, 3, 4) for p in ps] + \
@@ -1572,6 +1615,12 @@ def workload(tier, seed):
         yield "family", {"gtype": "bipartite", "cons": "regular",
                          "arglists": [S(6, 3, 2), S(3, 3, 2), S(4, 4, 3), S(2, 2, 2), S(5, 5, 4)],
                          "nseeds": (400 if T else 100) + rep}
+    # nearly complete regular graphs need hundreds of restarts
+    r = random.Random("c15-dense-%s" % seed)
+    for args in DENSE_REGULAR:
+        for rep in range(6 if T else 2):
+            yield "dense_regular", {"args": args, "seeds": [r.randrange(1 << 30) for _ in range(4)],
+                                    "headroom": 400 if rep % 2 == 0 else 900}
     # ---- options
     for base, n, emax in SIMPLE_BASES:
         sets = option_sets("simple", n, emax, tier)
